@@ -31,6 +31,22 @@ func histConfigs(tier string, seatsList []int, modes []string, blinds []pt.Table
 					name: fmt.Sprintf("seats%d/%s/%s", seats, mode, blindName(b)), tcfg: tc, init: init, hands: hands,
 					lines: []string{"foldout", "checkdown", "allin"}, decks: []string{"asc", "desc", "tie"}, newStack: 5,
 				})
+				if b == blindStd() && (mode == pt.CompetitionMode_MTT || len(modes) == 1) {
+					// the same table with its first players handed to CreateTable in the table setting
+					out = append(out, &histCfg{
+						name: fmt.Sprintf("seats%d/%s/%s/preset-players", seats, mode, blindName(b)), tcfg: tc, init: init, hands: hands, preset: true,
+						lines: []string{"foldout", "checkdown", "allin"}, decks: []string{"asc", "desc", "tie"}, newStack: 5,
+					})
+				}
+				if b == blindStd() && mode == pt.CompetitionMode_CT && seats >= 4 {
+					// a table that needs three players with chips to go on
+					tc3 := tc
+					tc3.MinPlayers = 3
+					out = append(out, &histCfg{
+						name: fmt.Sprintf("seats%d/%s/%s/min3", seats, mode, blindName(b)), tcfg: tc3, init: init, hands: hands,
+						lines: []string{"foldout", "checkdown", "allin"}, decks: []string{"asc", "desc", "tie"}, newStack: 5,
+					})
+				}
 			}
 		}
 	}
@@ -101,6 +117,7 @@ func layoutsFor(tier string) []layout {
 		mk(5, "a0:3", "b2:7", "c3:12", "d1:5-"),
 		mk(5, "a1:3", "b2:7", "c4:12", "d3:5-", "e0:4"),
 		mk(2, "a0:3", "b1:7"),
+		mk(4, "a0:7", "b1:7", "c3:5-"),
 	}
 	if tier == "thorough" {
 		ls = append(ls,
